@@ -163,6 +163,39 @@ def answer (l : String) : String :=
         | .error e => showErr e
       | _ => "bad"
     | none => "bad"
+  | "mvadd" :: ts =>
+    -- mvadd n c₁…cₙ m d₁…dₘ : `mfd + other` (list concatenation through the constructor)
+    match pCounted pData ts with
+    | some (cs, ts) =>
+      match pCounted pData ts with
+      | some (ds, []) =>
+        match mvAdd cs ds with
+        | .ok r => "ok " ++ toString r.length
+        | .error e => showErr e
+      | _ => "bad"
+    | none => "bad"
+  | "mvmul" :: k :: ts =>
+    match k.toInt?, pCounted pData ts with
+    | some k, some (cs, []) =>
+      match mvMul cs k with
+      | .ok r => "ok " ++ toString r.length
+      | .error e => showErr e
+    | _, _ => "bad"
+  | "mveq" :: ts =>
+    match pCounted pData ts with
+    | some (cs, ts) =>
+      match pCounted pData ts with
+      | some (ds, []) => if !(cs.all wf && ds.all wf) then "illformed" else toString (mvEq cs ds)
+      | _ => "bad"
+    | none => "bad"
+  | "xeq" :: ts =>
+    -- exact equality (the equivalence inside `==`)
+    match pData ts with
+    | some (a, ts) =>
+      match pData ts with
+      | some (b, []) => if !(wf a && wf b) then "illformed" else toString (exactEq a b) ++ " " ++ toString (eq a b)
+      | _ => "bad"
+    | none => "bad"
   | _ => "bad-op"
 
 def main : IO Unit := serve answer
